@@ -20,6 +20,7 @@ func init() {
 			"(D5) shape guards: the server-name form requires an immediate-subdomain test of the client name against the configured name (strict mode: mismatch is an error), the DoH form requires the first segment to equal dns-query and exactly two segments. " +
 			"(D7) the client's server name reaches the ClientID extraction untransformed (no case mapping before validation); (D8) the Host header names the server only for requests that did not arrive over TLS. " +
 			"(D3, cont.) for a DNS-over-HTTPS request the dispatcher returns only after the URL path was examined, whatever else is configured. " +
+			"(D2/D5, restated) the places where a non-empty ClientID is produced are found through the phis that join it with the empty string of other exits; the two server names are identified by role (result of clientServerName / configured TLS server name, directly or as parameters fed with them), the strict switch as a parameter fed from StrictSNICheck, the field read in place, or a matched result every caller combines with the switch. " +
 			"Not decided: correctness of the string surgery for look-alike suffixes, path cleaning and Host parsing (value-level).",
 		RuleText:    "Who-may-call enumeration over the module, provenance slices for cache key and value, CFG edge guards for the return shapes.",
 		Assumptions: []string{"netutil.IsImmediateSubdomain, netutil.ValidateHostnameLabel and path.Clean behave as documented (golibs/stdlib, trusted)", "dnsproxy assigns a unique RequestID per request"},
@@ -183,16 +184,49 @@ func c16CacheLifetime(c *Ctx) {
 	r.Floor("C16-D6", "proxy-installations", n, 1)
 }
 
+// nonEmptyStringReturn matches the places where a non-empty first result of fn is made: the instruction that
+// computes the returned value — seen through the phis that join it with the empty string of other exits — or, when
+// the value is not computed in fn, the return itself.
 func nonEmptyStringReturn(fn *ssa.Function) func(ssa.Instruction) bool {
-	return func(in ssa.Instruction) bool {
-		ret, ok := core.AsReturn(in)
-		if !ok || len(ret.Results) < 1 {
-			return false
-		}
-		v := core.ResolveLocalLoad(core.Res(ret, 0))
-		s, isC := core.ConstString(v)
-		return !(isC && s == "")
+	set := map[ssa.Instruction]bool{}
+	for _, pr := range nonEmptyProducers(fn) {
+		set[pr.at] = true
 	}
+	return func(in ssa.Instruction) bool { return set[in] }
+}
+
+type producer struct {
+	at  ssa.Instruction
+	val ssa.Value
+}
+
+func nonEmptyProducers(fn *ssa.Function) (out []producer) {
+	seen := map[ssa.Instruction]bool{}
+	for _, b := range fn.Blocks {
+		for _, in := range b.Instrs {
+			ret, ok := core.AsReturn(in)
+			if !ok || len(ret.Results) < 1 {
+				continue
+			}
+			for _, leaf := range core.FlattenPhi(core.ResolveLocalLoad(core.Res(ret, 0))) {
+				leaf = core.ResolveLocalLoad(leaf)
+				if s, isC := core.ConstString(leaf); isC && s == "" {
+					continue
+				}
+				at := in
+				if li, isI := leaf.(ssa.Instruction); isI && li.Parent() == fn && li.Block() != nil {
+					if _, isPhi := leaf.(*ssa.Phi); !isPhi {
+						at = li
+					}
+				}
+				if !seen[at] {
+					seen[at] = true
+					out = append(out, producer{at, leaf})
+				}
+			}
+		}
+	}
+	return out
 }
 
 func c16Extractors(c *Ctx) {
@@ -203,37 +237,36 @@ func c16Extractors(c *Ctx) {
 			r.Undecided("C16-D2", fk, "-", "anchor not found")
 			continue
 		}
-		sink := nonEmptyStringReturn(fn)
 		// D2: returned value is ToLower(x), ValidateClientID(x) == nil on the path
 		nRet := 0
-		for _, b := range fn.Blocks {
-			for _, in := range b.Instrs {
-				if !sink(in) {
-					continue
-				}
-				nRet++
-				ret, _ := core.AsReturn(in)
-				v := core.ResolveLocalLoad(core.Res(ret, 0))
-				key := fmt.Sprintf("validated-lowercased:%s#%d", fk, nRet)
-				call, _, ok := core.CallResult(v)
-				if !ok || core.CalleeKey(call.Common()) != "strings.ToLower" {
-					r.Fail("C16-D2", key, p.InstrPos(in), "a non-empty ClientID is returned that is not the result of strings.ToLower")
-					continue
-				}
-				x := call.Common().Args[0]
-				g, n := core.CondEdges(fn, func(at core.Atom) (bool, bool) {
-					if (at.Op == token.EQL || at.Op == token.NEQ) && core.IsNilConst(at.Other) {
-						if vc, _, ok := core.CallResult(at.Base); ok && core.CalleeKey(vc.Common()) == "dnsforward.ValidateClientID" && sameStr(vc.Common().Args[0], x) {
-							return true, at.Op == token.EQL
-						}
-					}
-					return false, false
-				})
-				off, _ := core.UnguardedSinks(fn, func(i2 ssa.Instruction) bool { return i2 == in }, g)
-				r.Check(n > 0 && len(off) == 0, "C16-D2", key, p.InstrPos(in),
-					"the returned ClientID is ToLower(x) with ValidateClientID(x) == nil on every path",
-					"a ClientID can be returned without having passed ValidateClientID", traceOf(p, off)...)
+		for _, pr := range nonEmptyProducers(fn) {
+			in, v := pr.at, pr.val
+			nRet++
+			key := fmt.Sprintf("validated-lowercased:%s#%d", fk, nRet)
+			if core.IsCallResult(core.ResolveCellLoad(v), 0, "dnsforward.clientIDFromClientServerName", "dnsforward.clientIDFromDNSContextHTTPS") && p.FnExact(fk) == nil {
+				// the extractor was folded into the dispatcher: this return hands on the other extractor's result,
+				// which is judged where it is made
+				nRet--
+				continue
 			}
+			call, _, ok := core.CallResult(v)
+			if !ok || core.CalleeKey(call.Common()) != "strings.ToLower" {
+				r.Fail("C16-D2", key, p.InstrPos(in), "a non-empty ClientID is returned that is not the result of strings.ToLower")
+				continue
+			}
+			x := call.Common().Args[0]
+			g, n := core.CondEdges(fn, func(at core.Atom) (bool, bool) {
+				if (at.Op == token.EQL || at.Op == token.NEQ) && core.IsNilConst(at.Other) {
+					if vc, _, ok := core.CallResult(at.Base); ok && core.CalleeKey(vc.Common()) == "dnsforward.ValidateClientID" && sameStr(vc.Common().Args[0], x) {
+						return true, at.Op == token.EQL
+					}
+				}
+				return false, false
+			})
+			off, _ := core.UnguardedSinks(fn, func(i2 ssa.Instruction) bool { return i2 == in }, g)
+			r.Check(n > 0 && len(off) == 0, "C16-D2", key, p.InstrPos(in),
+				"the returned ClientID is ToLower(x) with ValidateClientID(x) == nil on every path",
+				"a ClientID can be returned without having passed ValidateClientID", traceOf(p, off)...)
 		}
 		r.Floor("C16-D2", "non-empty-returns:"+fk, nRet, 1)
 	}
@@ -259,14 +292,37 @@ func c16Extractors(c *Ctx) {
 		fr, _, ok := core.LoadedField(core.ResolveCellLoad(v))
 		return ok && fr.Field == "StrictSNICheck"
 	}
-	if sn != nil && len(sn.Params) >= 2 {
-		host, cli := sn.Params[0], sn.Params[1]
+	// the two names by what they are: the client's is what clientServerName returned, the host's is the configured
+	// TLS server name — directly, or as a parameter every caller feeds with it
+	var roleOf func(v ssa.Value, depth int) string
+	roleOf = func(v ssa.Value, depth int) string {
+		v = core.ResolveCellLoad(v)
+		if core.IsCallResult(v, 0, "dnsforward.clientServerName") {
+			return "cli"
+		}
+		if fr, _, ok := core.LoadedField(v); ok && fr.Field == "ServerName" && strings.HasSuffix(fr.Type, "TLSConfig") {
+			return "host"
+		}
+		if prm, ok := v.(*ssa.Parameter); ok && depth < 3 {
+			role := ""
+			for i, a := range core.ArgsOfParam(prm) {
+				ra := roleOf(a, depth+1)
+				if i > 0 && ra != role {
+					return ""
+				}
+				role = ra
+			}
+			return role
+		}
+		return ""
+	}
+	if sn != nil {
 		isSub := func(truth bool) func(at core.Atom) (bool, bool) {
 			return func(at core.Atom) (bool, bool) {
 				if at.Op == token.ILLEGAL {
 					if call, _, ok := core.CallResult(at.Base); ok && core.CalleeKey(call.Common()) == "github.com/AdguardTeam/golibs/netutil.IsImmediateSubdomain" {
 						a := call.Common().Args
-						if len(a) == 2 && a[0] == ssa.Value(cli) && a[1] == ssa.Value(host) {
+						if len(a) == 2 && roleOf(a[0], 0) == "cli" && roleOf(a[1], 0) == "host" {
 							return true, truth
 						}
 					}
@@ -275,7 +331,13 @@ func c16Extractors(c *Ctx) {
 			}
 		}
 		g, n := core.CondEdges(sn, isSub(true))
-		off, ns := core.UnguardedSinks(sn, nonEmptyStringReturn(sn), g)
+		snSinks := map[ssa.Instruction]bool{}
+		for _, pr := range nonEmptyProducers(sn) {
+			if !core.IsCallResult(core.ResolveCellLoad(pr.val), 0, "dnsforward.clientIDFromDNSContextHTTPS") { // the DoH form is judged below
+				snSinks[pr.at] = true
+			}
+		}
+		off, ns := core.UnguardedSinks(sn, func(in ssa.Instruction) bool { return snSinks[in] }, g)
 		r.Check(n > 0 && ns > 0 && len(off) == 0, "C16-D5", "sni:immediate-subdomain", p.FnPos(sn),
 			"a ClientID is taken from a server name only if it is an immediate subdomain of the configured name",
 			"a ClientID can be taken from a server name that is not an immediate subdomain (<id>.<server name>) of the configured name", traceOf(p, off)...)
@@ -286,7 +348,7 @@ func c16Extractors(c *Ctx) {
 		}
 		// the strict switch: a parameter that every caller feeds from the configuration's StrictSNICheck ...
 		var strict *ssa.Parameter
-		for _, prm := range sn.Params[2:] {
+		for _, prm := range sn.Params {
 			args := core.ArgsOfParam(prm)
 			all := len(args) > 0
 			for _, a := range args {
@@ -310,15 +372,16 @@ func c16Extractors(c *Ctx) {
 			}
 		}
 		const okMsg, badMsg = "with strict checking a server name outside the configured domain is an error", "with strict checking a foreign server name is accepted silently"
+		// the switch as sn sees it: that parameter, or the configuration field read in place
+		gStrictFalse, nS := core.CondEdges(sn, func(at core.Atom) (bool, bool) {
+			if at.Op == token.ILLEGAL && (strict != nil && at.Base == ssa.Value(strict) || isStrictField(at.Base)) {
+				return true, false
+			}
+			return false, false
+		})
 		switch {
-		case strict != nil:
+		case nS > 0 && (strict != nil || matchedIdx < 0):
 			// strict: when not a subdomain and strict, the return is an error
-			gStrictFalse, nS := core.CondEdges(sn, func(at core.Atom) (bool, bool) {
-				if at.Op == token.ILLEGAL && at.Base == ssa.Value(strict) {
-					return true, false
-				}
-				return false, false
-			})
 			// from the IsImmediateSubdomain-false successor, a success return must pass strict == false
 			found := true
 			if len(starts) > 0 {
@@ -647,6 +710,29 @@ func c16RawNames(c *Ctx) {
 	for h := range core.StaticReach(fn, 2) {
 		if h != fn && core.PkgOf(h) == "dnsforward" && core.FuncKey(h) != "dnsforward.clientIDFromClientServerName" {
 			d7calls = append(d7calls, core.CallsTo(h, "dnsforward.clientIDFromClientServerName")...)
+		}
+	}
+	if len(d7calls) == 0 {
+		// the extractor was folded into the dispatcher (or became a method): the client's name is then what the
+		// subdomain test is asked about
+		fns := []*ssa.Function{fn}
+		for h := range core.StaticReach(fn, 2) {
+			if h != fn && core.PkgOf(h) == "dnsforward" {
+				fns = append(fns, h)
+			}
+		}
+		for _, h := range fns {
+			for _, call := range core.CallsTo(h, "github.com/AdguardTeam/golibs/netutil.IsImmediateSubdomain") {
+				n++
+				var bad []string
+				for _, o := range core.Origins(call.Arg(0), core.ProvOpts{Prog: p, Stop: stop, InterprocDepth: 2}) {
+					if o.Kind == "stop" {
+						bad = append(bad, o.Key)
+					}
+				}
+				r.Check(len(bad) == 0, "C16-D7", "server-name-untransformed:arg1", p.InstrPos(call.Instr),
+					"the client's server name reaches the ClientID extraction as received", fmt.Sprintf("the client's server name is transformed (%v) before the ClientID label is validated: a name that is not a valid host-name label can be folded into one", bad))
+			}
 		}
 	}
 	for _, call := range d7calls {
